@@ -98,6 +98,70 @@ def encode(cfg):
     return ";".join(w)
 
 
+def decode(text, name="cfg"):
+    """inverse of encode: the JSON description from the text encoding (so that a replay / corpus trace is
+    self-contained: the harness configuration is regenerated from the CASE line)"""
+    ENC_R = {v: k for k, v in ENC.items()}
+    OPT_R = {v: k for k, v in OPT.items()}
+    lst = lambda s: [] if s == "-" else s.split(",")
+    cfg, svc, ch = dict(name=name, services=[]), None, None
+    cur = cfg
+    for w in text.split(";"):
+        if w == "S":
+            svc = dict(chars=[])
+            cfg["services"].append(svc)
+            cur = svc
+            continue
+        if w == "C":
+            ch = dict()
+            svc["chars"].append(ch)
+            cur = ch
+            continue
+        k, v = w.split("=", 1)
+        if k == "mtu":
+            cur["mtu"] = int(v)
+        elif k == "wq":
+            cur["wq"] = None if v == "-" else int(v)
+        elif k == "enc":
+            cur["enc"] = [] if v == "-" else [ENC_R[x] for x in v]
+        elif k == "prio":
+            cur["prio"] = lst(v)
+        elif k == "u":
+            cur["uuid"] = v
+        elif k == "sec":
+            cur["secondary"] = v == "1"
+        elif k == "inc":
+            cur["includes"] = lst(v)
+        elif k == "h":
+            if cur is svc:
+                cur["handle"] = None if v == "-" else int(v)
+            else:
+                cur["handle"] = None if v == "-" else ([int(x) for x in v.split("/")] if "/" in v else int(v))
+        elif k == "v":
+            p = v.split(":")
+            if p[0] in ("b", "cb"):
+                cur["value"] = dict(kind="bind", size=int(p[1]), const=p[0] == "cb")
+            elif p[0] == "f":
+                cur["value"] = dict(kind="fixed", size=int(p[1]), value=int(p[2], 16))
+            elif p[0] == "s":
+                cur["value"] = dict(kind="cstring", text=bytes.fromhex(p[1]).decode("ascii"))
+            elif p[0] == "x":
+                cur["value"] = dict(kind="blob", bytes=p[1])
+            elif p[0] == "hd":
+                cur["value"] = dict(kind="handler", size=int(p[1]), read="r" in p[2], write="w" in p[2], blob="b" in p[2])
+            else:
+                raise ValueError(v)
+        elif k == "opt":
+            cur["opts"] = [OPT_R[x] for x in lst(v)]
+        elif k == "name":
+            cur["name"] = None if v == "-" else bytes.fromhex(v[1:]).decode("ascii")
+        elif k == "desc":
+            cur["descs"] = [dict(uuid=d.split(":")[0], bytes=d.split(":")[1]) for d in lst(v)]
+        else:
+            raise ValueError(w)
+    return cfg
+
+
 def cfg_id(cfg):
     return "c" + hashlib.sha1(encode(cfg).encode()).hexdigest()[:10]
 
@@ -123,6 +187,53 @@ def has_cccd(ch):
 def init_bytes(ci, n):
     """initial content of the bound variable / handler buffer of characteristic ci (both sides use it)"""
     return [(ci * 37 + j * 11 + 1) & 0xff for j in range(n)]
+
+
+# ------------------------------------------------------------------ Coq term (for Examples in the proofs)
+def _coq_uuid(u):
+    if len(u) == 4:
+        return "U16 %d" % int(u, 16)
+    return "U128 [%s]" % "; ".join(str(b) for b in reversed(bytes.fromhex(u)))
+
+
+def _coq_enc(l):
+    b = lambda x: "true" if x in l else "false"
+    return "(mkEnc %s %s %s)" % (b("requires_encryption"), b("no_encryption_required"), b("may_require_encryption"))
+
+
+def _coq_bytes(bs):
+    return "[%s]" % "; ".join(str(b) for b in bs)
+
+
+def emit_coq(cfg, name=None):
+    """Gallina term of type AttDbModel.cfg (scope N_scope, ListNotations)"""
+    c = norm(cfg)
+    b = lambda x: "true" if x else "false"
+    svcs = []
+    for s in c["services"]:
+        chs = []
+        for ch in s["chars"]:
+            v = ch["value"]
+            k = v["kind"]
+            val = ("VBind %d %s" % (v["size"], b(v.get("const"))) if k == "bind" else
+                   "VFixed %d %d" % (v["size"], v["value"]) if k == "fixed" else
+                   "VString %s" % _coq_bytes(v["text"].encode("ascii")) if k == "cstring" else
+                   "VString %s" % _coq_bytes(bytes.fromhex(v["bytes"])) if k == "blob" else
+                   "VHandler %d %s %s %s" % (v["size"], b(v.get("read")), b(v.get("write")), b(v.get("blob"))))
+            h = ch["handle"]
+            hs = "HNone" if h is None else ("(HThree %d %d %d)" % tuple(h) if isinstance(h, (list, tuple)) else "(HOne %d)" % h)
+            o = ch["opts"]
+            chs.append("mkChar (%s) %s (%s) %s %s %s %s %s %s %s [%s] %s" % (
+                _coq_uuid(ch["uuid"]), hs, val, b("no_read_access" in o), b("no_write_access" in o), b("notify" in o), b("indicate" in o),
+                b("write_without_response" in o), b("only_write_without_response" in o),
+                "None" if ch["name"] is None else "(Some %s)" % _coq_bytes(ch["name"].encode("ascii")),
+                "; ".join("(%d, %s)" % (int(d["uuid"], 16), _coq_bytes(bytes.fromhex(d["bytes"]))) for d in ch["descs"]), _coq_enc(ch["enc"])))
+        svcs.append("mkSvc (%s) %s %s [%s]\n      [%s]\n      %s [%s]" % (
+            _coq_uuid(s["uuid"]), b(s["secondary"]), "None" if s["handle"] is None else "(Some %d)" % s["handle"],
+            "; ".join(_coq_uuid(u) for u in s["includes"]), ";\n       ".join(chs), _coq_enc(s["enc"]), "; ".join(_coq_uuid(u) for u in s["prio"])))
+    return "Definition %s : cfg :=\n  mkCfg\n    [%s]\n    %d %s [%s] %s." % (
+        name or ("cfg_" + c["name"]), ";\n     ".join(svcs), c["mtu"], "None" if c["wq"] is None else "(Some %d)" % c["wq"],
+        "; ".join(_coq_uuid(u) for u in c["prio"]), _coq_enc(c["enc"]))
 
 
 # ------------------------------------------------------------------ C++
